@@ -29,12 +29,33 @@ fn run_case(k: usize, adds: &[Vec<(usize, f32)>], probes: &[(usize, f32)]) {
             }
         }
     }
+    // the by-value builder route: SpatioTemporalConstraints::default().constraints(&a).constraints(&b)...
+    let mut resb = String::new();
+    let built = guarded(|| {
+        let mut b = SpatioTemporalConstraints::default();
+        for a in adds {
+            b = b.constraints(a);
+        }
+        b
+    });
+    match built {
+        None => resb.push('X'),
+        Some(b) => {
+            for (d, x) in probes {
+                match guarded(|| b.validate(*d, *x)) {
+                    None => resb.push('P'),
+                    Some(true) => resb.push('T'),
+                    Some(false) => resb.push('F'),
+                }
+            }
+        }
+    }
     let adds_s: Vec<String> = adds
         .iter()
         .map(|a| a.iter().map(|(g, l)| format!("{}:{}", g, f32b(*l))).collect::<Vec<_>>().join(","))
         .collect();
     let probes_s: Vec<String> = probes.iter().map(|(d, x)| format!("{}:{}", d, f32b(*x))).collect();
-    println!("case {} adds={} probes={} res={} addres={}", k, adds_s.join("|"), probes_s.join(";"), res, addres);
+    println!("case {} adds={} probes={} res={} addres={} resb={}", k, adds_s.join("|"), probes_s.join(";"), res, addres, resb);
 }
 
 fn probes_for(adds: &[Vec<(usize, f32)>], rng: &mut Rng, malformed: bool) -> Vec<(usize, f32)> {
